@@ -17,6 +17,9 @@ ENTRY = {
     2: ('B', dict(index=9, ip_proto='udp', mode='tunnel', ipsec_proto='ah', my_subnet='10.1.0.0/24', peer_subnet='10.2.0.0/16', my_port=500, peer_port=4500, lifetime=40,
                   integ=['sha512', 'sha1'])),
     3: ('C', dict(index=2 ** 20, ip_proto='any', mode='tunnel', ipsec_proto='esp', my_subnet='2001:db8:a::/64', peer_subnet='2001:db8:c::/48', encr=['aes128'], lifetime=50)),
+    # protected networks of the other address family than the tunnel endpoints: IPv6 networks through an IPv4 tunnel and the reverse
+    4: ('B', dict(index=11, ip_proto='tcp', mode='tunnel', ipsec_proto='esp', my_subnet='2001:db8:1::/64', peer_subnet='2001:db8:2::/64', peer_port=443, lifetime=60)),
+    5: ('C', dict(index=12, ip_proto='any', mode='tunnel', ipsec_proto='esp', my_subnet='172.16.1.0/24', peer_subnet='172.16.2.0/24', lifetime=70)),
 }
 PROTO = {'tcp': 6, 'udp': 17, 'any': 0, 'icmp': 1}
 
@@ -164,7 +167,7 @@ def acquire_mapping(v, tier):
     """An ACQUIRE with an installed out-policy's index is negotiated with that connection's peer, with the entry's proposal, mode,
     lifetime and selectors inside the entry's; IKE_SAs are re-used; an unknown index is ignored."""
     n = 0
-    for entries in ({1}, {1, 2}, {3}, {1, 2, 3}):
+    for entries in ({1}, {1, 2}, {3}, {1, 2, 3}, {4}, {1, 4}, {5}, {3, 5}):
         for e in sorted(entries):
             peer, p = ENTRY[e]
             v6 = peer == 'C'
@@ -202,11 +205,12 @@ def acquire_mapping(v, tier):
                     for ts, netw, port in ((tsi, my_net, p.get('my_port', 0)), (tsr, peer_net, p.get('peer_port', 0))):
                         for t in ts:
                             lo, hi = ipaddress.ip_address(t['saddr']), ipaddress.ip_address(t['eaddr'])
-                            if not (netw[0] <= lo <= hi <= netw[-1]):
+                            if lo.version != netw.version or hi.version != netw.version or not (netw[0] <= lo <= hi <= netw[-1]):
                                 ok = False
+                                continue
                             if port and not (t['sport'] == t['eport'] == port or (t['sport'], t['eport']) == (0, 65535) and False):
                                 ok = ok and (t['sport'] >= port <= t['eport'] and t['sport'] == port)
-                        if (ipaddress.ip_address(ts[-1]['saddr']), ipaddress.ip_address(ts[-1]['eaddr'])) != (netw[0], netw[-1]):
+                        if (str(ipaddress.ip_address(ts[-1]['saddr'])), str(ipaddress.ip_address(ts[-1]['eaddr']))) != (str(netw[0]), str(netw[-1])):
                             ok = False
                     want_proto = 3 if p['ipsec_proto'] == 'esp' else 2
                     integ = {'sha256': 12, 'sha512': 14, 'sha1': 2}
@@ -239,7 +243,7 @@ def acquire_mapping(v, tier):
 
 
 def cfg(max_steps):
-    return ('SPECIFICATION Spec\nCONSTANTS\n Configs = {{1}, {1, 2}, {3}, {1, 2, 3}}\n MaxSteps = %d\nINVARIANT AfterStart\nINVARIANT AcquireMaps\nPROPERTY AfterStop\n'
+    return ('SPECIFICATION Spec\nCONSTANTS\n Configs = {{1}, {1, 2}, {3}, {1, 2, 3}, {4, 5}, {1, 2, 3, 4, 5}}\n MaxSteps = %d\nINVARIANT AfterStart\nINVARIANT AcquireMaps\nPROPERTY AfterStop\n'
             'VIEW View\nCHECK_DEADLOCK FALSE\n' % max_steps)
 
 
